@@ -206,7 +206,12 @@ def run_unit(unit):
         link = [unit.config.compiler] + objs + [ensure_engine(), "-o", exe] + LINK_FLAGS + [e for e in unit.config.extra if e.startswith("-fsanitize")]
         rc, out = sh(link, timeout=600)
         if rc != 0:
-            res["inconclusive"].append("link failed: " + out[-400:])
+            # a program every object of which compiled but which does not link is rejected by the toolchain: report it for the
+            # instances of this unit (generators keep suspect instances in small units of their own)
+            und = [l for l in out.splitlines() if "undefined reference" in l]
+            msg = "does not link: " + (re.sub(r"^.*?: ", "", und[0])[:300] if und else out[-300:])
+            for c in ok:
+                res["records"].append(dict(case=c.id, status="compile_fail", msg=msg, log=[], note=""))
             return res
         if not unit.config.runnable():
             res["inconclusive"].append("host cannot execute " + unit.config.isa)
@@ -396,7 +401,7 @@ def match_known(known, rec):
 
 def write_replay(prop, unit_lookup, rec):
     case = unit_lookup["cases"][rec["case"]]
-    cfg = unit_lookup["configs"][rec["cfg"]]
+    cfg = unit_lookup["cfg_by_case"].get((rec["case"], rec["cfg"])) or unit_lookup["configs"][rec["cfg"]]
     body = dict(property=prop, case=rec["case"], line=case.line, meta=case.meta, headers=unit_lookup["headers"][rec["case"]],
                 prelude=unit_lookup["prelude"].get(rec["case"], ""), config=cfg.to_json(), status=rec.get("status"), msg=rec.get("msg", ""),
                 note=rec.get("note", ""), log=rec.get("log", []), mode=unit_lookup["mode"].get(rec["case"], "rc"))
@@ -462,10 +467,11 @@ def run_property(prop, mod, tier, seed):
         for u in units:
             u.cases = [c for c in u.cases if re.search(flt, c.id + "@" + u.config.name)]
         units = [u for u in units if u.cases]
-    lookup = dict(cases={}, configs={}, headers={}, prelude={}, mode={})
+    lookup = dict(cases={}, configs={}, headers={}, prelude={}, mode={}, cfg_by_case={})
     for u in units:
         lookup["configs"][u.config.name] = u.config
         for c in u.cases:
+            lookup["cfg_by_case"][(c.id, u.config.name)] = u.config
             lookup["cases"][c.id] = c
             lookup["headers"][c.id] = u.headers
             lookup["mode"][c.id] = u.mode
